@@ -265,8 +265,44 @@ def run(ctx, anchors=None):
                      % (astq.estr(par)[:60], f.name, ty or "int"))
     ctx.floor("R03.9", n39, 1, "ordering comparisons of nVersion")
 
+    # ---- R03.10 lock-time operands have up to 5 bytes (BIP65 / BIP112: values up to 2^39-1); CScriptNum::getint() saturates at
+    # +-2^31-1. The transaction checker compares its operand through CScriptNum's 64-bit operators: a getint() of the operand that
+    # feeds anything but a log line makes every lock time >= 2^31 compare as 2^31-1 (seed C03-K: an unsatisfied
+    # OP_CHECKLOCKTIMEVERIFY passes when script and transaction lock times are both >= 2^31-1).
+    ctx.rule("R03.10", "CheckLockTime / CheckSequence never narrow their 5-byte operand through the saturating getint()")
+    n310 = 0
+    seen310 = set()
+    for f in sorted(fb.funcs.values(), key=lambda f_: f_.id):
+        base = f.name.split("(")[0].split("::")[-1]
+        if f.body is None or base not in ("CheckLockTime", "CheckSequence") or not f.file.startswith("script/interpreter.") or "Generic" not in (f.rec or f.name):
+            continue
+        if (f.file, f.line) in seen310:
+            continue
+        seen310.add((f.file, f.line))
+        pnames = {p_["n"] for p_ in f.params if "CScriptNum" in (p_.get("ty") or "")}
+        if not pnames:
+            raise AnalysisBroken("R03.10: %s takes no CScriptNum operand" % f.name)
+        n310 += 1
+        ctx.site()
+        narrowed = []
+        for n in f.nodes():
+            if n["k"] != "mcall" or n.get("n") != "getint" or n.get("obj") is None:
+                continue
+            src = astq.expand(f, n["obj"]) or n["obj"]
+            if not any(x.get("k") == "ref" and x.get("n") in pnames for x in walk(src)):
+                continue
+            if any(astq.is_call(a) and ((a.get("n") or "").startswith("btc_") or (a.get("n") or "") in ("printf", "fprintf")) for a in f.ancestors(n)):
+                continue
+            narrowed.append(n)
+        ctx.inst(not narrowed, "R03.10", "operand-not-narrowed@" + base, f.loc(narrowed[0]) if narrowed else f.loc(),
+                 "%s compares its operand through CScriptNum's 64-bit operators (no getint() outside log lines)" % base,
+                 "%s narrows its operand with `%s` (saturating at 2^31-1) outside a log line: 5-byte lock times >= 2^31 all compare as 2147483647, so an unsatisfied lock passes when the transaction's value is >= 2^31-1"
+                 % (f.name.split("(")[0], astq.estr(narrowed[0])[:40] if narrowed else ""))
+    ctx.floor("R03.10", n310, 2, "CheckLockTime and CheckSequence of the transaction checker")
+
 
 MUTANTS = [
+    dict(name="locktime-operand-through-getint", file="script/interpreter.cpp", find="    if (nLockTime > (int64_t)txTo->nLockTime)", replace="    if (nLockTime.getint() > (int64_t)txTo->nLockTime)", expect=["R03.10:operand-not-narrowed@CheckLockTime"]),
     dict(name="version-compared-signed", file="script/interpreter.cpp", find="    if (static_cast<uint32_t>(txTo->nVersion) < 2)", replace="    if (txTo->nVersion < 2)", expect=["R03.9:version-compared-unsigned"]),
     dict(name="element-limit-on-the-whole-witness", file="instance.cpp", find="            for (const auto& item : stack) {\n                if (item.size() > MAX_SCRIPT_ELEMENT_SIZE) {", replace="            for (const auto& item : wstack) {\n                if (item.size() > MAX_SCRIPT_ELEMENT_SIZE) {", expect=["R03.6:element-limit-on-the-initial-stack"]),
     dict(name="annex-hashed-without-its-length", file="instance.cpp", find="                execdata.m_annex_hash = (HashWriter{} << stack.back()).GetSHA256();", replace="                execdata.m_annex_hash = (HashWriter{} << Span<const unsigned char>{stack.back()}).GetSHA256();", expect=["R03.6:annex-hash"]),
